@@ -9,5 +9,15 @@ import (
 
 func main() {
 	name, desc := "gts", "the genome transformation subprograms command line tool"
-	os.Exit(flags.Run(name, desc, gts.Version, flags.Compile()))
+	defer func() {
+		if r := recover(); r != nil {
+			discardArmedCache()
+			panic(r)
+		}
+	}()
+	code := flags.Run(name, desc, gts.Version, flags.Compile())
+	if code != 0 {
+		discardArmedCache()
+	}
+	os.Exit(code)
 }
